@@ -75,7 +75,18 @@ PrefixedLits == {WideAB, U8X, RawNL, RawQ}
 ValueOps  == LeftAssocOps                      \* 18 binary operators with a value
 AllBinOps == LeftAssocOps \cup AssignOps \cup {COMMA}
 SignOps   == {<<"+">>, <<"-">>, <<"!">>, <<"~">>}
-TypesUsed == {<<"i","n","t">>}   \* OCCA normalises type spellings (long -> long int): only int is compared
+\* cast target types: every arithmetic type spelling OCCA's parser accepts, plus two pointer types (structure only).
+\* The check compares types by a normalised spelling (long == long int), so OCCA's own spelling is not an issue.
+TypesUsed == ArithTypes \ {T_CHAR, T_CCHAR, T_CLONG}
+N60 == Lit("prim", <<"6","0">>, <<"6","0">>, 60, <<>>)
+Big  == Lit("prim", <<"1","0","0","0","0","0">>, <<"1","0","0","0","0","0">>, 100000, <<>>)
+BigU == Lit("prim", <<"1","0","0","0","0","0","u">>, <<"1","0","0","0","0","0","u">>, 100000, <<>>)
+\* narrowing changes the value (a * 60 = 300, -300); 64-bit results (beyond Eval: compared through g++ only)
+WidthCasts == {Cast(ty, Bin(<<"*">>, A, N60)) : ty \in TypesUsed} \cup {Cast(ty, Un(<<"-">>, Bin(<<"*">>, A, N60))) : ty \in TypesUsed}
+              \cup {Bin(<<"+">>, Cast(ty, Bin(<<"*">>, A, N60)), Bv) : ty \in TypesUsed}
+              \cup {Bin(<<"*">>, Cast(ty, Big), BigU) : ty \in TypesUsed} \cup {Bin(<<"*">>, Cast(ty, Bin(<<"*">>, A, Big)), Big) : ty \in TypesUsed}
+              \cup {Cast(ty, Bin(<<"*">>, Big, Big)) : ty \in TypesUsed}
+              \cup {Cast(ty, Pn) : ty \in PointerTypes} \cup {Un(<<"*">>, Cast(T_INTP, Pn)), Cast(T_LL, Cast(T_UCHAR, Bin(<<"*">>, A, N60)))}
 
 \* G1: every ordered pair of binary operators, in both nestings (precedence and associativity)
 BinBin == {Bin(o1, Bin(o2, A, Bv), Cv) : o1 \in AllBinOps, o2 \in AllBinOps}
@@ -114,7 +125,8 @@ Misc   == {Call(Fn, <<x, y>>) : x \in Args, y \in Args}
           \cup {Index(Pn, x) : x \in Args} \cup {Index(Index(Pn, A), Bv), Index(Call(Fn, <<A, Bv>>), Cv), Index(Un(<<"*">>, Pn), A)}
           \cup {Bin(o, Call(Fn, <<A, Bv>>), Cv) : o \in ValueOps}
           \cup {Cast(ty, x) : ty \in TypesUsed, x \in Args \cup {Bin(<<"*">>, A, Bv), Cast(<<"i","n","t">>, A)}}
-          \cup {Bin(o, Cast(<<"i","n","t">>, A), Bv) : o \in ValueOps}
+          \cup {Bin(o, Cast(ty, A), Bv) : o \in ValueOps, ty \in TypesUsed}
+          \cup WidthCasts
           \cup {SizeofE(x) : x \in {A, Bin(<<"+">>, A, Bv), Un(<<"-">>, A)}}
           \cup {Bin(o, SizeofE(A), Bv) : o \in {<<"+">>, <<"*">>, <<"<">>}}
           \cup {Bin(m, Pn, Id(<<"x">>)) : m \in MemberOps} \cup {Bin(<<".">>, Bin(<<"-",">">>, Pn, Id(<<"x">>)), Id(<<"y">>))}
